@@ -3,6 +3,8 @@
 //! {"stream":..,"case":..,"impl":..,"oracle":[{"key":..,"what":..}],"tags":[..]}
 pub mod common;
 pub mod s_intervals;
+pub mod tygen;
+pub mod s_dtype;
 
 use common::*;
 use std::io::{BufRead, Write};
@@ -13,6 +15,7 @@ type GenFn = fn(&mut Rng, usize, &str) -> serde_json::Value;
 fn streams() -> Vec<(&'static str, GenFn, EvalFn)> {
     vec![
         ("intervals", s_intervals::gen, s_intervals::eval),
+        ("dtype", s_dtype::gen, s_dtype::eval),
     ]
 }
 
@@ -27,12 +30,18 @@ pub fn main() {
     let mut seed: u64 = 1;
     let mut n: usize = 100;
     let mut tier = "quick".to_string();
+    let mut skip: usize = 0;
+    let mut print_case: Option<usize> = None;
+    let mut case_timeout: u64 = 30;
     let mut i = 3;
     while i < args.len() {
         match args[i].as_str() {
             "--seed" => { seed = args[i + 1].parse().unwrap(); i += 2; }
             "--n" => { n = args[i + 1].parse().unwrap(); i += 2; }
             "--tier" => { tier = args[i + 1].clone(); i += 2; }
+            "--skip" => { skip = args[i + 1].parse().unwrap(); i += 2; }
+            "--print-case" => { print_case = Some(args[i + 1].parse().unwrap()); i += 2; }
+            "--case-timeout" => { case_timeout = args[i + 1].parse().unwrap(); i += 2; }
             _ => { i += 1; }
         }
     }
@@ -47,16 +56,35 @@ pub fn main() {
         .unwrap_or_else(|| { eprintln!("unknown stream {stream}"); std::process::exit(2) });
     let out = std::io::stdout();
     let mut out = std::io::BufWriter::new(out.lock());
+    // watchdog: a case that runs longer than `case_timeout` seconds ends the process with exit code 97
+    // (the runner records the case as a hang and restarts after it)
+    let started = std::sync::Arc::new(std::sync::atomic::AtomicU64::new(0));
+    {
+        let started = started.clone();
+        std::thread::spawn(move || loop {
+            std::thread::sleep(std::time::Duration::from_millis(500));
+            let s = started.load(std::sync::atomic::Ordering::Relaxed);
+            if s != 0 {
+                let now = std::time::SystemTime::now().duration_since(std::time::UNIX_EPOCH).unwrap().as_secs();
+                if now > s + case_timeout { eprintln!("WATCHDOG: case exceeded {case_timeout}s"); std::process::exit(97); }
+            }
+        });
+    }
     let mut emit = |case: serde_json::Value| {
+        started.store(std::time::SystemTime::now().duration_since(std::time::UNIX_EPOCH).unwrap().as_secs(), std::sync::atomic::Ordering::Relaxed);
         let o = e(&case);
+        started.store(0, std::sync::atomic::Ordering::Relaxed);
         let line = serde_json::json!({"stream": stream, "case": case, "impl": o.imp, "oracle": o.oracle, "tags": o.tags});
         writeln!(out, "{}", line).unwrap();
+        out.flush().unwrap();
     };
     match mode {
         "gen" => {
             let mut rng = Rng::new(seed ^ fnv(stream));
             for k in 0..n {
                 let case = g(&mut rng, k, &tier);
+                if let Some(pc) = print_case { if pc == k { println!("{}", serde_json::json!({"stream": stream, "case": case})); return; } else { continue; } }
+                if k < skip { continue; }
                 emit(case);
             }
         }
